@@ -237,14 +237,17 @@ def _counters(path):
     """how often the clauses that need luck were actually exercised"""
     c = {"solve_ok": 0, "addcal_ok": 0, "addcal_replace": 0,
          "solved_unknown_true": 0, "deleted_held_used": 0, "refused_calls": 0,
-         "silent_refused": 0, "multi_store_events": 0, "load_ok": 0}
+         "silent_refused": 0, "multi_store_events": 0, "load_ok": 0,
+         "rect_cal_stored": 0, "types_stored": set()}
     with open(path) as fp:
         names = {}
         deleted = set()
+        shapes = {}
         for ln in fp:
             if ln.startswith('{"e":"Reset"'):
                 names = {}
                 deleted = set()
+                shapes = {}
                 continue
             try:
                 ev = json.loads(ln)
@@ -258,6 +261,13 @@ def _counters(path):
                     c["silent_refused"] += 1
             if len(ev.get("obs", [])) > 1:
                 c["multi_store_events"] += 1
+            if e == "NewAlloc" and ok == 1:
+                shapes[ev["n"]] = (ev["type"], ev["rows"], ev["cols"])
+            if e == "AddCalibration" and ok == 1 and ev["n"] in shapes:
+                t, r, cc = shapes[ev["n"]]
+                c["types_stored"].add(t)
+                if r != cc:
+                    c["rect_cal_stored"] += 1
             if e == "Load" and ok == 1:
                 c["load_ok"] += 1
             if e == "Solve" and ok == 1:
@@ -300,7 +310,10 @@ def _validate(ctx, tr, label, issues, stats):
     stats["distinct_nontrivial"] += common.count_distinct_nontrivial(
         tr, _nontrivial)
     for k, v in _counters(tr).items():
-        stats["counters"][k] = stats["counters"].get(k, 0) + v
+        if isinstance(v, set):
+            stats["counters"][k] = sorted(set(stats["counters"].get(k, [])) | v)
+        else:
+            stats["counters"][k] = stats["counters"].get(k, 0) + v
 
 
 def run(ctx, exe, tier, seed, exh_depth=None, rand_cases=None, rand_len=None,
@@ -369,11 +382,24 @@ def run(ctx, exe, tier, seed, exh_depth=None, rand_cases=None, rand_len=None,
     _validate(ctx, tr, "bulk histories", issues, stats)
     stats["bulk_cases"] = bulk_cases
 
+    # shape histories: every type on square and rectangular dimensions with
+    # 1..3 frequencies and complex z0, every accessor read explicitly
+    paths, crashes = common.run_sharded(
+        exe, lambda a, b: ["shapes", str(a), str(b)], 120, ctx.work,
+        "cs-shapes", _case_index, nshards=vlib.NCPU)
+    issues += issues_from_crashes(ctx, crashes, "shape histories")
+    stats["crashes"] += len(crashes)
+    for p in paths:
+        common.strip_crashed_episodes(p)
+    tr = common.concat(paths, os.path.join(ctx.work, "cs-shapes-all.ndjson"))
+    _validate(ctx, tr, "shape histories", issues, stats)
+    stats["shape_cases"] = 120
+
     # the clauses that depend on the histories reaching certain situations
     # must not be vacuous on the implementation side either
     need = ["solve_ok", "addcal_ok", "addcal_replace", "solved_unknown_true",
             "deleted_held_used", "silent_refused", "load_ok",
-            "multi_store_events"]
+            "multi_store_events", "rect_cal_stored"]
     if not stats["crashes"]:
         for k in need:
             if stats["counters"].get(k, 0) == 0:
@@ -398,6 +424,8 @@ def replay(ctx, exe, path):
         args = ["exh", parts[1], parts[2], str(int(parts[2]) + 1)]
     elif parts[0] == "bulk":
         args = ["bulk", parts[1], parts[2], str(int(parts[2]) + 1)]
+    elif parts[0] == "shapes":
+        args = ["shapes", parts[2], str(int(parts[2]) + 1)]
     else:
         args = ["rand", parts[1], parts[2], str(int(parts[2]) + 1), parts[3]]
     tp = os.path.join(ctx.work, "replay.ndjson")
